@@ -14,7 +14,9 @@ EXTENDS Integers, FiniteSets, Sequences
 Versions == {10, 11, 12, 13}
 VerOrUnset == {0} \cup Versions
 AuthModes == {"none", "request", "requireAny", "verifyIfGiven", "requireAndVerify"}
-CertKinds == {"none", "self", "ca", "other"}   \* nothing / self-signed / signed by the configured CA / signed by another CA
+\* nothing / self-signed / signed by the configured CA / signed by another private CA /
+\* signed by a CA of the host's system trust store that is not the configured CA
+CertKinds == {"none", "self", "ca", "other", "public"}
 
 \* cfg = [min, max, auth, ca, skip, suites]
 \*   ca: a CAFile is configured; skip: InsecureSkipVerify (a client-side flag of crypto/tls: it has no
@@ -37,24 +39,31 @@ Accepts(cfg) == ~(cfg.min > cfg.max) /\ (cfg.min = 0 \/ cfg.min >= 12)
 ServerVersions(cfg) == {v \in Versions : (IF cfg.min = 0 THEN v >= 12 ELSE v >= cfg.min) /\ (cfg.max = 0 \/ v <= cfg.max)}
 ClientVersions(cl)  == {v \in Versions : cl.lo <= v /\ v <= cl.hi}
 
-\* a client certificate verifies only against the configured CA (BuildConfig loads CAFile into
-\* ClientCAs only for the verifying modes; with no CAFile the system roots apply and none of the
-\* test certificates chains to them)
-Chains(cfg, cert) == cfg.ca /\ cert = "ca"
-CertAdmitted(cfg, cert) ==
+\* a client certificate verifies only against the configured CA: BuildConfig loads CAFile, and nothing
+\* else, into ClientCAs for the verifying modes.  With no CAFile crypto/tls verifies against the host's
+\* trust store (ClientCAs nil), which is then the only anchor there is.
+Chains(cfg, cert) == IF cfg.ca THEN cert = "ca" ELSE cert = "public"
+\* sysToo: a defect class in which the verifying pool is the host's trust store plus the configured CA
+\* (the pattern used for RootCAs on the client side); FALSE is the code
+AdmittedWith(cfg, cert, sysToo) ==
+  LET chains == Chains(cfg, cert) \/ (sysToo /\ cert = "public") IN
   CASE cfg.auth \in {"none", "request"} -> TRUE
     [] cfg.auth = "requireAny"        -> cert # "none"
-    [] cfg.auth = "verifyIfGiven"     -> cert = "none" \/ Chains(cfg, cert)
-    [] cfg.auth = "requireAndVerify"  -> cert # "none" /\ Chains(cfg, cert)
+    [] cfg.auth = "verifyIfGiven"     -> cert = "none" \/ chains
+    [] cfg.auth = "requireAndVerify"  -> cert # "none" /\ chains
+CertAdmitted(cfg, cert) == AdmittedWith(cfg, cert, FALSE)
 
 \* outcome of one handshake against a listener built from cfg: [ok, ver]
-Handshake(cfg, cl) ==
+HandshakeWith(cfg, cl, sysToo) ==
   LET common == ServerVersions(cfg) \cap ClientVersions(cl) IN
-  IF common = {} \/ ~CertAdmitted(cfg, cl.cert) THEN [ok |-> FALSE, ver |-> 0]
+  IF common = {} \/ ~AdmittedWith(cfg, cl.cert, sysToo) THEN [ok |-> FALSE, ver |-> 0]
   ELSE [ok |-> TRUE, ver |-> SetMax(common)]
+Handshake(cfg, cl) == HandshakeWith(cfg, cl, FALSE)
 
 -----------------------------------------------------------------------------
 (* Ideal level: what C30 states about a completed handshake *)
 FloorOK(out)        == out.ok => out.ver >= 12
-MutualOK(cfg, cl, out) == (cfg.auth = "requireAndVerify" /\ out.ok) => (cfg.ca /\ cl.cert = "ca")
+\* required and verified: only clients of the configured CA get in (a certificate of some CA the host
+\* happens to trust is not one); without a configured CA only the host's trust store can vouch
+MutualOK(cfg, cl, out) == (cfg.auth = "requireAndVerify" /\ out.ok) => Chains(cfg, cl.cert)
 =============================================================================
